@@ -27,6 +27,7 @@ type Config struct {
 	// biases
 	ManyLocals  bool
 	CallHeavy   bool
+	ABIHeavy    bool // wide signatures at the engines' register/stack boundaries sharing result lists, many (tail) calls
 	MutateHeavy bool
 	TrapHeavy   bool
 	NoStart     bool
@@ -56,6 +57,10 @@ func DefaultConfig(r *core.Rng) Config {
 	}
 	if c.Threads {
 		c.SharedMem = r.Bool()
+	}
+	if r.Chance(1, 8) {
+		c.ABIHeavy = true
+		c.TailCall = r.Chance(3, 4)
 	}
 	return c
 }
@@ -106,6 +111,7 @@ type gen struct {
 	tableFns                 []uint32 // function index stored at table slot i by the active segment (or ^0)
 	passiveData, passiveElem int
 	cbFunc                   uint32
+	abiResults               []wenc.ValType
 	typesUsed                []wenc.FuncType
 }
 
@@ -160,6 +166,43 @@ func (g *gen) randSig(maxP, maxR int) FuncSig {
 	return s
 }
 
+// abiSig draws a signature whose parameter and result counts sit around the register/stack boundaries of the engines'
+// calling conventions (amd64: 7 integer / 8 float argument registers after the two context pointers, results alike),
+// with a per-program shared result list so that tail calls find partners.
+func (g *gen) abiSig() FuncSig {
+	r := g.r
+	var s FuncSig
+	class := func() func() wenc.ValType {
+		switch r.Intn(4) {
+		case 0:
+			return func() wenc.ValType { return []wenc.ValType{i32, i64}[r.Intn(2)] }
+		case 1:
+			return func() wenc.ValType { return []wenc.ValType{f32, f64}[r.Intn(2)] }
+		}
+		return g.randType
+	}
+	pp := class()
+	np := []int{0, 1, 2, 6, 7, 8, 9, 10, 11}[r.Intn(9)]
+	for i := 0; i < np; i++ {
+		s.Params = append(s.Params, pp())
+	}
+	if g.abiResults == nil || r.Chance(1, 3) {
+		rp := class()
+		nr := []int{0, 1, 2, 7, 8, 9, 10, 11, 12}[r.Intn(9)]
+		var res []wenc.ValType
+		for i := 0; i < nr; i++ {
+			res = append(res, rp())
+		}
+		if g.abiResults == nil {
+			g.abiResults = res
+		}
+		s.Results = res
+	} else {
+		s.Results = g.abiResults
+	}
+	return s
+}
+
 // Generate builds one program.
 func Generate(r *core.Rng, cfg Config) *Program {
 	g := &gen{r: r, cfg: cfg, m: &wenc.Module{}, p: &Program{Cfg: cfg, OpsUsed: map[string]int{}, FuncIndex: map[string]uint32{}}}
@@ -196,8 +239,14 @@ func Generate(r *core.Rng, cfg Config) *Program {
 	}
 	for i := 0; i < nf; i++ {
 		s := g.randSig(4, 3)
+		if cfg.ABIHeavy {
+			s = g.abiSig()
+		}
 		if i == 0 {
 			s = FuncSig{[]wenc.ValType{i32}, []wenc.ValType{i32}} // "cb": callable from the host
+		}
+		if i > 1 && g.r.Chance(1, 5) { // same results, other parameters: tail-call partners with different argument areas
+			s.Results = g.sigs[g.nImp+uint32(g.r.Intn(i))].Results
 		}
 		if i > 1 && g.r.Chance(1, 3) { // reuse a signature so that call_indirect / return_call find partners
 			s = g.sigs[g.nImp+uint32(g.r.Intn(i))]
@@ -1011,6 +1060,9 @@ func (f *fgen) stmt() (terminated bool) {
 	k := r.Intn(39)
 	if f.g.cfg.CallHeavy && r.Chance(1, 3) {
 		k = 9
+	}
+	if f.g.cfg.ABIHeavy && r.Chance(1, 3) {
+		k = []int{9, 9, 26}[r.Intn(3)]
 	}
 	if f.g.cfg.MutateHeavy && r.Chance(1, 3) {
 		k = 16 + r.Intn(8)
